@@ -9,6 +9,7 @@ from ..astutil import (call_name, calls_in, dotted, func_params, norm,
 from ..cfg import CFG
 from ..guards import conditions_at
 from ..loader import AnchorError, Undecided
+from ..symres import Resolver
 
 EXPLANATION = (
     "Decided by shape: (R1) the direction wrapper computes one orientation "
@@ -34,6 +35,11 @@ NOT_DECIDED = [
 
 
 def r1_direction_wrapper(ctx):
+    """Path enumeration over model_direction_agnostic (if-structured, no
+    loops): on every path the user function is called exactly once; when
+    the abscissa is ascending (first < last, tested on the *given*
+    abscissa) the function receives the reversed view and the result is
+    reversed back, otherwise neither."""
     rm = ctx.repo.mod("model.residuals")
     fn = rm.func("model_direction_agnostic")
     ctx.analysed(fn)
@@ -41,107 +47,180 @@ def r1_direction_wrapper(ctx):
     if len(params) < 3:
         raise Undecided("model_direction_agnostic signature changed")
     mf, pv, xv = params[0], params[1], params[2]
-    calls = [c for c in calls_in(fn) if call_name(c) == mf]
-    ctx.check(len(calls) == 1, fn, f"user function called {len(calls)}x",
-              "the user model function is not called exactly once")
-    if len(calls) != 1:
-        return
-    call = calls[0]
-    got = {kw.arg: norm(kw.value) for kw in call.keywords if kw.arg}
-    if call.args:
-        got["delta"] = norm(call.args[0])
-    star = [norm(kw.value) for kw in call.keywords if kw.arg is None]
-    ctx.check(got.get("delta") == xv and star == [f"{pv}.valuesdict()"],
-              call, f"call {norm(call)}",
-              "the user function does not receive the abscissa and the "
-              "parameter values")
-    # orientation flag
-    cfg = CFG(fn)
+    R = Resolver(fn)
+    rev_forms = (f"{xv}[::-1]",)
     asc = (f"{xv}[0] < {xv}[-1]", f"{xv}[-1] > {xv}[0]")
-    flag_defs = {}
-    for st in walk_no_nested(fn, False):
-        if isinstance(st, ast.Assign) and isinstance(st.targets[0], ast.Name):
-            v = st.value
-            name = st.targets[0].id
-            if isinstance(v, ast.Compare) and norm(v) in asc:
-                flag_defs.setdefault(name, []).append(("expr", st))
-            elif isinstance(v, ast.Constant) and isinstance(v.value, bool):
-                conds = conditions_at(st)
-                c = [a for a in conds if a.text in asc]
-                if len(c) == 1 and c[0].pol == v.value:
-                    flag_defs.setdefault(name, []).append(("branch", st))
-                else:
-                    flag_defs.setdefault(name, []).append(("bad", st))
-    flags = [n for n, ds in flag_defs.items()
-             if all(k != "bad" for k, _ in ds)]
-    # input reversal
-    rev_in = [st for st in walk_no_nested(fn, False)
-              if isinstance(st, ast.Assign) and norm(st.targets[0]) == xv
-              and norm(st.value) in (f"{xv}[::-1]", f"np.flip({xv})",
-                                     f"np.flipud({xv})")]
-    ctx.check(len(rev_in) == 1, fn, f"{len(rev_in)} input reversal(s)",
-              "the abscissa is not reversed exactly once before the call")
-    res_name = None
-    st = call
-    while not isinstance(st, ast.stmt):
-        st = st._parent
-    if isinstance(st, ast.Assign) and isinstance(st.targets[0], ast.Name):
-        res_name = st.targets[0].id
-    rets = [r for r in walk_no_nested(fn, False) if isinstance(r, ast.Return)]
-    rev_out = [r for r in rets if r.value is not None and norm(r.value) in (
-        f"{res_name}[::-1]", f"np.flip({res_name})")]
-    plain_out = [r for r in rets if r.value is not None
-                 and norm(r.value) == res_name]
-    ctx.check(len(rev_out) == 1 and len(plain_out) == 1 and len(rets) == 2,
-              fn, "returns: reversed under the flag, plain otherwise",
-              "the output is not returned reversed on exactly one of two "
-              "return paths")
+    desc = (f"{xv}[0] > {xv}[-1]", f"{xv}[-1] < {xv}[0]",
+            f"{xv}[0] >= {xv}[-1]", f"{xv}[-1] <= {xv}[0]")
+    paths = []     # (asc|None, calls, in_rev, out_rev, node)
 
-    def flag_of(node):
-        conds = conditions_at(node)
-        out = []
-        for a in conds:
-            if a.text in flags:
-                out.append((a.text, a.pol, a))
-            elif a.text in asc:
-                out.append(("<asc>", a.pol, a))
-        return out
+    def orient(test, st):
+        """(is_orientation_test, value_if_true, stale)"""
+        t = test
+        if isinstance(t, ast.UnaryOp) and isinstance(t.op, ast.Not):
+            is_o, val, stale = orient(t.operand, st)
+            return is_o, (None if val is None else not val), stale
+        if isinstance(t, ast.Name):
+            v = R.reaching_value(t)
+            if v is not None:
+                t2 = norm(v)
+                if t2 in asc:
+                    return True, True, False
+                if t2 in desc:
+                    return True, False, False
+            return False, None, False
+        tt = norm(t)
+        if tt in asc:
+            return True, True, True
+        if tt in desc:
+            return True, False, True
+        return False, None, False
 
-    fin = [flag_of(s) for s in rev_in]
-    fout = [flag_of(r) for r in rev_out]
-    fplain = [flag_of(r) for r in plain_out]
-    ok = (len(fin) == 1 and len(fout) == 1 and len(fin[0]) == 1
-          and len(fout[0]) == 1 and fin[0][0][:2] == fout[0][0][:2]
-          and fin[0][0][1] is True)
-    ctx.check(ok, fn, "input and output reversed under the same flag",
-              "input reversal and output reversal are not controlled by the "
-              "same orientation flag: output order differs from the "
-              "abscissa order for one orientation")
-    if ok and fin[0][0][0] == "<asc>":
-        # the test is re-evaluated after the abscissa was re-bound
-        ctx.fail(rev_out[0], "orientation re-tested after reversal",
-                 "the orientation test is evaluated again after the "
-                 "abscissa name was re-bound to the reversed view: the "
-                 "output is never reversed back")
-    if fplain and fplain[0]:
-        ctx.check(fplain[0][0][1] is False, plain_out[0],
-                  "plain return under the negated flag", "flag mix-up")
-    # the flag is computed before the abscissa is re-bound
-    for name in flags:
-        for kind, st_ in flag_defs[name]:
-            n1 = cfg.node_of_stmt(st_) or cfg.node_containing(st_)
-            for s in rev_in:
-                n2 = cfg.node_of_stmt(s)
-                if n1 is not None and n2 is not None:
-                    ctx.check(n2.id not in cfg.reach([cfg.entry],
-                                                     avoid={n1.id})
-                              or kind == "branch", st_,
-                              "orientation determined before the reversal",
-                              "orientation is determined after the "
-                              "abscissa was already reversed")
-    ctx.check(bool(flags) or (ok and fin[0][0][0] == "<asc>"), fn,
-              "orientation flag = (first < last) of the given abscissa",
-              "no orientation flag derived from delta[0] < delta[-1]")
+    def call_info(c, state):
+        got = {kw.arg: kw.value for kw in c.keywords if kw.arg}
+        arg = got.get("delta") or (c.args[0] if c.args else None)
+        if arg is None:
+            return None
+        t = norm(arg)
+        star = [norm(kw.value) for kw in c.keywords if kw.arg is None]
+        okp = star == [f"{pv}.valuesdict()"]
+        if t == xv:
+            return state["xrev"], okp
+        if t in rev_forms:
+            return (not state["xrev"]), okp
+        if isinstance(arg, ast.Name) and arg.id in state["views"]:
+            return state["views"][arg.id], okp
+        return None
+
+    def ret_value(v, state, node):
+        if isinstance(v, ast.IfExp):
+            is_o, val, stale = orient(v.test, node)
+            for branch, pol in ((v.body, True), (v.orelse, False)):
+                s2 = dict(state, views=dict(state["views"]),
+                          results=dict(state["results"]))
+                if is_o and state["asc"] is not None and not (
+                        stale and state["xrev"]) and \
+                        (val == pol) != state["asc"]:
+                    continue      # infeasible: orientation already known
+                if is_o:
+                    if stale and s2["xrev"]:
+                        s2["stale"] = True
+                    s2["asc"] = (val == pol)
+                ret_value(branch, s2, node)
+            return
+        if isinstance(v, ast.Call) and call_name(v) == mf:
+            ci = call_info(v, state)
+            if ci is None:
+                raise Undecided("unrecognised call of the model function")
+            paths.append((state["asc"], state["calls"] + 1, ci[0], False,
+                          ci[1], state["stale"], node))
+            return
+        t = norm(v)
+        for rn, rrev in state["results"].items():
+            if t == rn:
+                paths.append((state["asc"], state["calls"], rrev, False,
+                              state["okp"], state["stale"], node))
+                return
+            if t == f"{rn}[::-1]":
+                paths.append((state["asc"], state["calls"], rrev, True,
+                              state["okp"], state["stale"], node))
+                return
+        raise Undecided(f"unrecognised return value {t[:50]}")
+
+    def run(stmts, state):
+        for i, st in enumerate(stmts):
+            if isinstance(st, ast.If):
+                is_o, val, stale = orient(st.test, st)
+                for body, pol in ((st.body, True), (st.orelse, False)):
+                    s2 = dict(state, views=dict(state["views"]),
+                              results=dict(state["results"]))
+                    if is_o and state["asc"] is not None and not (
+                            stale and state["xrev"]) and \
+                            (val == pol) != state["asc"]:
+                        continue  # infeasible: orientation already known
+                    if is_o:
+                        if stale and s2["xrev"]:
+                            s2["stale"] = True
+                        s2["asc"] = (val == pol)
+                    run(list(body) + list(stmts[i + 1:]), s2)
+                return
+            if isinstance(st, ast.Return):
+                ret_value(st.value, state, st)
+                return
+            if isinstance(st, ast.Assign) and len(st.targets) == 1 and \
+                    isinstance(st.targets[0], ast.Name):
+                tgt = st.targets[0].id
+                v = st.value
+                if isinstance(v, ast.Call) and call_name(v) == mf:
+                    ci = call_info(v, state)
+                    if ci is None:
+                        raise Undecided("unrecognised call of the model "
+                                        "function")
+                    state["calls"] += 1
+                    state["results"][tgt] = ci[0]
+                    state["okp"] = ci[1]
+                    continue
+                t = norm(v)
+                if tgt == xv and t in rev_forms:
+                    state["xrev"] = not state["xrev"]
+                    continue
+                if t in rev_forms:
+                    state["views"][tgt] = not state["xrev"]
+                    continue
+                if t == xv:
+                    state["views"][tgt] = state["xrev"]
+                    continue
+                if tgt == xv:
+                    raise Undecided(f"abscissa re-bound to {t[:40]}")
+                continue
+            if isinstance(st, (ast.Expr, ast.Pass)):
+                continue
+            raise Undecided(f"statement not understood: {norm(st)[:50]}")
+        paths.append((state["asc"], state["calls"], None, None,
+                      state["okp"], state["stale"], fn))
+
+    body = [s for s in fn.body if not (isinstance(s, ast.Expr) and isinstance(
+        s.value, ast.Constant))]
+    run(body, {"asc": None, "calls": 0, "xrev": False, "views": {},
+               "results": {}, "okp": True, "stale": False})
+    ctx.floor("paths through model_direction_agnostic", len(paths), 2)
+    seen_asc = set()
+    for (a, calls, in_rev, out_rev, okp, stale, node) in paths:
+        seen_asc.add(a)
+        label = {True: "ascending", False: "descending",
+                 None: "orientation not tested"}[a]
+        ctx.check(calls == 1, node, f"{label}: user function called "
+                  f"{calls}x",
+                  f"on the path for {label} abscissa the user model "
+                  f"function is called {calls} times")
+        if calls != 1 or in_rev is None:
+            continue
+        ctx.check(okp, node, f"{label}: parameter values passed",
+                  "the user function does not receive the parameter values")
+        ctx.check(not stale, node, f"{label}: orientation of the given "
+                  "abscissa", "the orientation test is evaluated again "
+                  "after the abscissa name was re-bound to the reversed "
+                  "view: the output is never reversed back")
+        if a is None:
+            ctx.fail(node, f"{label}", "a path returns without the "
+                     "orientation of the abscissa having been tested")
+            continue
+        ctx.check(in_rev == a, node,
+                  f"{label}: user function sees "
+                  f"{'reversed' if in_rev else 'given'} order",
+                  f"for an {label} abscissa the user function receives the "
+                  f"{'reversed' if in_rev else 'unreversed'} array: it does "
+                  "not always see approach-ordered data")
+        ctx.check(out_rev == in_rev, node,
+                  f"{label}: output "
+                  f"{'reversed back' if out_rev else 'returned as is'}",
+                  f"for an {label} abscissa the output is "
+                  f"{'reversed' if out_rev else 'not reversed'} although the "
+                  f"input was {'reversed' if in_rev else 'not reversed'}: "
+                  "model output order differs from the abscissa order")
+    ctx.check({True, False} <= seen_asc, fn,
+              "both orientations handled", "only one orientation of the "
+              "abscissa is handled")
 
 
 def r2_defaults_attached(ctx):
